@@ -226,7 +226,7 @@ def run(ctx):
     hl = hleng.HL(ctx)
     r = ctx.rng("hl")
     hcases, hexp = [], []
-    for _ in range(600 if quick else 20000):
+    for _ in range(600 if quick else 40000):
         c, e = hl_history(r)
         hcases.append(c)
         hexp.append(e)
@@ -257,12 +257,12 @@ def run(ctx):
         tags.append({"corpus": fn, "finding": j.get("finding")})
     ncorpus = len(cases)
     # random command lines
-    for _ in range(700 if quick else 12000):
+    for _ in range(700 if quick else 40000):
         cases.append(c02eng.g_case(r))
         tags.append({})
     # every order of the words of small cases
     nperm_base = 0
-    for _ in range(14 if quick else 80):
+    for _ in range(14 if quick else 200):
         base = c02eng.g_case(r, two=r.chance(1, 2), nfiles=1)
         nwords = sum(len(ws) for _, ws in base["opts"])
         if nwords < 3 or nwords > (5 if quick else 6):
